@@ -5,6 +5,7 @@ CONSTANTS
   MaxBatchesPerRun = 2
   KeyIncludesConfig = TRUE
   AtomicWrite = TRUE
+  BatchKey <- IdKey
   TolerantLoad = TRUE
 SPECIFICATION Spec
 INVARIANT CacheTransparent
